@@ -1,5 +1,5 @@
 import Witverif.Proofs.Scalar
-import Witverif.Generated.ScalarExprs
+import Witverif.Generated.ScalarExprs.Go
 /-! # C14, backend `go`: one theorem per scalar ABI instruction
 
 `G.go_I` is the list of conversion expressions the `go` generator emitted for instruction `I`
